@@ -32,11 +32,13 @@ def main():
         meta = json.load(open(os.path.join(d, "meta.json")))
         prop = meta["property"]
         patch = os.path.join(d, "patch.diff")
+        subprocess.run(["git", "-C", repo, "reset", "-q", "--hard"])
         a = subprocess.run(["git", "-C", repo, "apply", patch], stdout=subprocess.PIPE, stderr=subprocess.STDOUT)
         if a.returncode != 0:
-            a = subprocess.run(["git", "-C", repo, "apply", "-3", patch], stdout=subprocess.PIPE, stderr=subprocess.STDOUT)
+            # tolerate moved context (later repairs shifted the lines), but never a three-way merge
+            a = subprocess.run(["git", "-C", repo, "apply", "-C1", "--ignore-whitespace", patch], stdout=subprocess.PIPE, stderr=subprocess.STDOUT)
         if a.returncode != 0:
-            subprocess.run(["git", "-C", repo, "checkout", "--", "."])
+            subprocess.run(["git", "-C", repo, "reset", "-q", "--hard"])
             results.append({"change": name, "property": prop, "verdict": "patch does not apply to the current tree", "detail": a.stdout.decode()[-200:]})
             print(name, "patch does not apply")
             continue
@@ -46,8 +48,7 @@ def main():
                                stderr=subprocess.STDOUT, cwd=VERIF if os.path.isdir(os.path.join(VERIF, "fsv")) else None)
             out = p.stdout.decode("utf-8", "replace")
         finally:
-            subprocess.run(["git", "-C", repo, "checkout", "--", "."])
-            subprocess.run(["git", "-C", repo, "reset", "-q"])
+            subprocess.run(["git", "-C", repo, "reset", "-q", "--hard"])
         sig = ""
         for line in out.splitlines():
             if line.strip().startswith("failing"):
